@@ -702,6 +702,11 @@ func (s *State) applyFunction(name string, fn object.Object, args []object.Objec
 	if !ok {
 		return s.NewError("not a function: " + fn.Type().String() + ":" + fn.Inspect())
 	}
+	if s.rootEnv != nil && s.rootEnv.Generation() != s.cacheGen {
+		// a global function or constant was redefined or deleted, what was memoized may depend on the old one.
+		s.cache = NewCache()
+		s.cacheGen = s.rootEnv.Generation()
+	}
 	if v, output, ok := s.cache.Get(function.CacheKey, args); ok {
 		log.Debugf("Cache hit for %s %v -> %#v", function.CacheKey, args, v)
 		if len(output) > 0 {
